@@ -150,6 +150,7 @@ def run_case(case):
             if x['rule'] == 'unbalanced-around-unstarted-test':
                 x['mech'] = 'bracket-decorator-skip-unbalanced'
     viol += v
+    viol += w.cviol[:3]
     counters.update(st)
     hook_layers = sum(1 for ls in spec['layers']
                       if 'testSetUp' in ls['hooks'] or
